@@ -355,7 +355,11 @@ class HttpWebServerPlugin(HttpProtocolHandlerPlugin):
                 # in HTTP, reporting them must not fail the request.
                 'url': 'http://%s%s'
                 % (
-                    text_(self.request.header(b'host'), errors='backslashreplace'),
+                    text_(
+                        self.request.header(b'host')
+                        if self.request.has_header(b'host') else b'',
+                        errors='backslashreplace',
+                    ),
                     text_(self.request.path, errors='backslashreplace'),
                 ),
                 'method': text_(self.request.method, errors='backslashreplace'),
